@@ -14,10 +14,14 @@ TRUSTED = [
     "float64 ratios 0.05 modelled as integer division by 20 (exact below 2^50); uint64 sizes as Z",
 ]
 ASSUME = [
-    "a cache is released only when none of its creators is inside its loader, and no lookup starts on a released "
-    "cache (callers hold the fraction's use lock) -- theorem hypothesis, witnessed on the real code (witness-R3)",
+    "a cache is released only when none of its entries is still loading (no creator inside its loader), and no "
+    "lookup starts on a released cache (callers hold the fraction's use lock) -- hypothesis of C18_accounting, "
+    "witnessed on the real code (class witness-R3) and by Example C18_release_during_load_outside_domain",
     "CleanEmptyGenerations does not run between a save's unlock and its gen.size.Add for the generation it drops "
-    "(not schedulable from outside the package; model-level gap, see report)",
+    "(hypothesis of C18_accounting; not schedulable from outside the package; Example "
+    "C18_gc_between_unlock_and_add_outside_domain)",
+    "the listing-level corollary getSize = sum of ALL live entries (and live sum <= limit after a pass) is checked "
+    "by the spec checker on every explored state, but only the per-generation form is proved (PARTIAL)",
     "interleavings finer than loader boundaries (between save's unlock and its Add) are covered by the theorems "
     "over the model only, not by the correspondence run",
 ]
